@@ -257,6 +257,58 @@ def search_failing_input(prop, prog_json, seeds_inputs, builtins, rng, budget=40
     return None
 
 
+def shrink_violation(prop, v, builtins, rounds=8):
+    """delta-debug the input of a concrete violation against the reference lexer (same definition,
+    same script); returns a violation dict with a shorter input when one is found"""
+    if not v.get('def_json') or v.get('input') is None or len(v['input']) <= 8 or prop not in pipeline.TRACE_PROPS:
+        return v
+    d = pipeline.json_to_def(v['def_json'])
+    try:
+        ref = reflex.RefLexer(d, builtins)
+    except Exception:  # noqa
+        return v
+    cur = list(v['input'])
+    script = v.get('script') or []
+    best = v
+    for _ in range(rounds):
+        n = len(cur)
+        if n <= 3:
+            break
+        cands = []
+        for parts in (2, 4, 8):
+            size = max(1, n // parts)
+            for i in range(0, n, size):
+                c = cur[:i] + cur[i + size:]
+                if c and c not in cands:
+                    cands.append(c)
+        cands = cands[:40]
+        cases = [{'prog': d['name'], 'id': 'k%d' % i, 'ctor': 0, 'ncalls': len(c) + 3, 'input': c, 'script': script, 'clones': []} for i, c in enumerate(cands)]
+        status, traces, dumps = build_and_run([d], {d['name']: cases})
+        if status[d['name']]['build'] != 'ok':
+            break
+        dd = dumps[d['name']]
+        sw = corpus.dump_switch_table(dd['body']) if dd else {}
+        num2name = {x: k for k, x in sw.items()} if sw else {0: '_'}
+        found = None
+        for c in sorted(cases, key=lambda c: len(c['input'])):
+            it = traces.get((d['name'], c['id']))
+            if it is None:
+                continue
+            pil = pipeline.map_states(it['lines'], num2name)
+            rl = ref.run(c['input'], script, c['ncalls'], True, it['widths'])
+            prl = [pipeline.parse_line(l) for l in rl]
+            if pipeline.proj(prop, pil) != pipeline.proj(prop, prl) or prop in pipeline.direct_oracles(c, pil, it['widths']):
+                a, b = pipeline.first_diff(it['lines'], rl)
+                found = dict(best)
+                found.update({'input': c['input'], 'actual': a, 'expected': b, 'shrunk_from': len(v['input'])})
+                break
+        if found is None:
+            break
+        best = found
+        cur = found['input']
+    return best
+
+
 # ---------------------------------------------------------------------------------------------
 # the generic decision for trace/stage based properties
 
@@ -403,6 +455,11 @@ def main():
             # C02 owns the language slice: stage checks attributed to C02 (not C01's flags)
             v2, breaks2 = decide_from_corpus('C02', res, builtins, seed, flt)
             breaks = [b for b in breaks if b['kind'] == 'trace'] + breaks2
+        if v:
+            try:
+                v = [shrink_violation(prop if prop != 'C02' else 'C01', v[0], builtins)] + v[1:]
+            except Exception as e:  # noqa
+                log('shrinking failed: %r' % (e,))
         violations += v
         if not violations and breaks:
             f, u = resolve_breaks(prop, res, breaks, builtins, seed)
